@@ -70,6 +70,7 @@ type Contract struct {
 	Uses     []string // tags whose callee postconditions this function's proof relies on
 	Synth    bool     // synthesised from type invariants
 	NoTypeInv bool    // do not add the parameters' type invariants
+	Defines  []*Clause // ghost-state definitions: assumed at call sites like ensures, never an obligation of the body (listed in the evidence)
 	Assumes  []*Clause // assumed at entry, never checked at call sites (domain restrictions; listed in the evidence)
 	TrustKinds []string // obligation kinds not generated for this function (assumed; listed in the evidence)
 	tiMerged bool
@@ -95,12 +96,13 @@ type Schema struct {
 	Re       *regexp.Regexp
 	Except   *regexp.Regexp // on the function name, or for method schemas on "Type.Method"
 	Method   bool
+	Only     *regexp.Regexp // method schemas: restrict to matching "Type.Method" (type-specific schemas are not used for dynamic calls)
 	TypeName string
 	C        *Contract
 	CallReq  []*Clause // requires checked at calls through the function type (defaults to C.Requires)
 }
 
-var reKeyword = regexp.MustCompile(`^(func|schema|absmethod|abspred|assumes|trustkind|pred|spec|axiom|devirt|typeinv|typereq|callrequires|notypeinv|uses|requires|ensures(\[[^\]]*\])?|assigns|loop|inline|trusted|pure|lemma)\b`)
+var reKeyword = regexp.MustCompile(`^(func|schema|absmethod|abspred|assumes|trustkind|pred|spec|axiom|devirt|typeinv|typereq|callrequires|notypeinv|uses|requires|ensures(\[[^\]]*\])?|defines(\[[^\]]*\])?|assigns|loop|inline|trusted|pure|lemma)\b`)
 
 func loadContracts(pkgDirs map[string]string) *ContractSet {
 	cs := &ContractSet{ByFunc: map[string]*Contract{}, Specs: map[string]*SpecFn{}, Axioms: map[string][]*Clause{}, Devirt: map[string]string{}, TypeInvs: map[string]string{}, AbsMethods: map[string]bool{}, AbsPreds: map[string]bool{}}
@@ -187,10 +189,12 @@ func (cs *ContractSet) parseFile(pkgPath, file, src string) {
 			curSchema = nil
 			cur = &Contract{Func: rest, Pkg: pkgPath, Invs: map[int][]*Clause{}, Decr: map[int]*Clause{}, NoTerm: map[int]bool{}, Unroll: map[int]int{}, Line: it.line, File: file}
 			key := pkgPath + "." + rest
-			if _, dup := cs.ByFunc[key]; dup {
-				cs.errf(file, it.line, "duplicate contract for %s", rest)
+			if prev, dup := cs.ByFunc[key]; dup {
+				// a later block for the same function (possibly in another contract file) adds clauses to the first
+				cur = prev
+			} else {
+				cs.ByFunc[key] = cur
 			}
-			cs.ByFunc[key] = cur
 		case "schema":
 			// schema <name> func <regexp> [type <FuncTypeName>]
 			f := strings.Fields(rest)
@@ -208,6 +212,13 @@ func (cs *ContractSet) parseFile(pkgPath, file, src string) {
 				switch f[k] {
 				case "type":
 					sch.TypeName = f[k+1]
+				case "only":
+					on, err := regexp.Compile(f[k+1])
+					if err != nil {
+						cs.errf(file, it.line, "bad schema only regexp: %v", err)
+					} else {
+						sch.Only = on
+					}
 				case "except":
 					ex, err := regexp.Compile(f[k+1])
 					if err != nil {
@@ -276,6 +287,14 @@ func (cs *ContractSet) parseFile(pkgPath, file, src string) {
 		case "trustkind":
 			if cur != nil {
 				cur.TrustKinds = append(cur.TrustKinds, strings.Fields(rest)...)
+			}
+		case "defines":
+			if cur == nil {
+				cs.errf(file, it.line, "defines outside func")
+				continue
+			}
+			if c := mk("defines", rest); c != nil {
+				cur.Defines = append(cur.Defines, c)
 			}
 		case "requires", "ensures":
 			if cur == nil {
